@@ -1,6 +1,6 @@
 #!/usr/bin/env python3
 """tools/seed_import.py <PROP> <N> <round> <wtprefix> <mechanism> <needs>: copy a confirmed sub-agent change into /verif/seeded/<PROP>-<k>/."""
-import json, os, shutil, sys
+import json, os, shutil, subprocess, sys
 P, N, rnd, pre, mech, needs = sys.argv[1:7]
 k = 1
 while os.path.exists(f"/verif/seeded/{P}-{k}"):
@@ -8,12 +8,13 @@ while os.path.exists(f"/verif/seeded/{P}-{k}"):
 d = f"/verif/seeded/{P}-{k}"
 os.makedirs(d)
 S = f"{pre}{P}/SEEDED"
+head = subprocess.run(["git", "-C", f"{pre}{P}", "rev-parse", "--short", "HEAD"], capture_output=True, text=True).stdout.strip() or "?"
 shutil.copy(f"{S}/patch{N}.diff", f"{d}/patch.diff")
 shutil.copy(f"{S}/demo{N}_test.go", f"{d}/demo_test.go.txt")
 if os.path.exists(f"{S}/README.md"):
     shutil.copy(f"{S}/README.md", f"{d}/agent_README.md")
 meta = {"id": f"{P}-{k}", "round": int(rnd), "breaks_property": P, "mechanism": mech, "needs_to_manifest": needs,
-        "origin": f"round-{rnd} sub-agent given only the property text, the list of earlier mechanisms to avoid, and a scratch worktree of /repo at be59040 (patch {N} of its SEEDED directory)",
+        "origin": f"round-{rnd} sub-agent given only the property text, the list of earlier mechanisms to avoid, and a scratch worktree of /repo at {head} (patch {N} of its SEEDED directory)",
         "confirmed": {"how": f"WTPREFIX={pre} tools/seed_verify.sh {P} {N} in the scratch worktree", "patch_applies": True, "go_build": "ok",
                       "existing_suite_with_patch": "all packages ok", "demonstration_with_patch": "FAIL", "demonstration_without_patch": "PASS"},
         "demonstration": "demo_test.go.txt (copy into the package directory named in its header as *_test.go)"}
